@@ -1,6 +1,7 @@
 CONSTANT N = 2
 CONSTANT LateGuards = FALSE
 CONSTANT Deviation = "none"
+CONSTANT ExitKinds = {"return", "panic"}
 INIT GenInit
 NEXT GenNext
 INVARIANT Safety
